@@ -139,9 +139,12 @@ doc_row!(k_docstring_nbsp, 6);
 fn any_line_index(buf: &mut [usize; 4]) -> usize {
     let n: usize = any();
     assume(n >= 1 && n <= 4);
-    let a: [u8; 4] = any();
+    // exactly the three gaps that are used: a drawn value that is never read (a[0] of a 4-array) does not appear in
+    // CBMC's trace, the native replay then consumes the witness one value off and a genuine counterexample is
+    // reported as "did not reproduce" (seen with the seeded change C15-char-position-partition-point-strict)
+    let a: [u8; 3] = any();
     buf[0] = 0;
-    for i in 1..4 { buf[i] = buf[i - 1] + 1 + (a[i] as usize); }
+    for i in 1..4 { buf[i] = buf[i - 1] + 1 + (a[i - 1] as usize); }
     n
 }
 /// @harness id=k_line_index props=C11,C15 tier=quick unwind=6 mem=4 cap=600
